@@ -175,7 +175,9 @@ class Run:
                         if 'call' in ev:
                             pending = ev
                         else:
-                            if 'harness_error' in ev:
+                            if 'harness_error' in ev and str(ev['harness_error']).startswith('unknown schema id'):
+                                self.count('ops_skipped_because_their_schema_was_rejected')
+                            elif 'harness_error' in ev:
                                 self.inconc('harness error on op %s: %s' % (ev.get('id'), ev['harness_error']))
                             events[ev.get('id')] = ev
                             pending = None
